@@ -38,6 +38,12 @@ def noneAfterFailedAttempt (failedSince received : List Nat) : Bool := !received
 def afterCheck (failedSince : List Nat) (e : Nat) (s : String) : List Nat :=
   if isRoutable s then failedSince.filter (· != e) else failedSince
 
+/-! Requests in flight (the `life` histories): both clauses speak of what was the case "before the request arrived",
+so every contact a request makes — however late, after however many status writes — is judged with the repository's
+reading and the ghost set `failedSince` taken WHEN THAT REQUEST WAS SENT (`onlyRoutableReceived`,
+`noneAfterFailedAttempt` on the single contact); an attempt the system failed over from enters `failedSince` when the
+failover is observed, a check result leaves it through `afterCheck`. -/
+
 /-- Concurrent writers: the endpoint must have been routable at some instant of the request's lifetime
     (`held` = every status the endpoint held between the request's start and end). -/
 def routableSometime (held : List String) : Bool := held.any isRoutable
